@@ -1,6 +1,7 @@
 (** C12 - the round-trip laws of the mesh life cycle, proved of Model/C12_MeshLife.v with the three
     repairs in ([fixed]), for every table of side corners / wire pairs and every model. *)
 From Coq Require Import List Bool Arith ZArith Lia.
+From CB Require Model.Propagate Model.C12_Regrade Proofs.PropagateBasics Proofs.PropagateTerm Proofs.PropagateInv Proofs.PropagateFinal Proofs.C12_Regrade.
 From CB Require Import Model.C12_MeshLife Proofs.C12_Lists.
 Import ListNotations.
 
@@ -18,7 +19,7 @@ Proof. unfold clean, clear. simpl. repeat split. apply mods_are_clean. Qed.
 
 (** * what assemble builds *)
 Definition built (V : list vtx) (b : blk) (ko : nat * op) : Prop :=
-  b_src b = fst ko /\ b_chops b = o_chops (snd ko) /\ b_acc b = [[]; []; []] /\ length (b_verts b) = 8
+  b_src b = fst ko /\ b_chops b = o_chops (snd ko) /\ (b_wg b = [] /\ b_ax b = []) /\ length (b_verts b) = 8
   /\ Forall (fun i => i < length V) (b_verts b) /\ geo V (b_verts b) = pts8 (snd ko).
 
 Lemma reqs_fst sl o : map fst (reqs sl o) = pts8 o.
@@ -26,7 +27,7 @@ Proof. unfold reqs, pts8. rewrite map_map. reflexivity. Qed.
 
 Lemma built_app V ext b ko : built V b ko -> built (V ++ ext) b ko.
 Proof.
-  intros [H1 [H2 [H3 [H4 [H5 H6]]]]]. repeat split; try assumption.
+  intros [H1 [H2 [[H3 H3'] [H4 [H5 H6]]]]]. repeat split; try assumption.
   - apply Forall_lt_app. exact H5.
   - rewrite geo_app by exact H5. exact H6.
 Qed.
@@ -34,7 +35,7 @@ Qed.
 Lemma asm_op_eq tb sl V B P ko :
   asm_op tb sl (V, B, P) ko =
   let '(V', idx) := add_many V (reqs sl (snd ko)) in
-  (V', B ++ [{| b_src := fst ko; b_verts := idx; b_chops := o_chops (snd ko); b_acc := [[]; []; []] |}],
+  (V', B ++ [{| b_src := fst ko; b_verts := idx; b_chops := o_chops (snd ko); b_wg := []; b_ax := [] |}],
    add_op_patches tb P (snd ko) idx).
 Proof. reflexivity. Qed.
 
@@ -144,23 +145,157 @@ Proof.
 Qed.
 
 (** * write is idempotent *)
-Lemma grade_block_idem b : grade_block fixed (grade_block fixed b) = grade_block fixed b.
-Proof. reflexivity. Qed.
+Lemma imap_map {A B C} (h : B -> C) (f : nat -> A -> B) l : forall i,
+  map h (imap f i l) = imap (fun j a => h (f j a)) i l.
+Proof. induction l as [|a l IH]; intro i; simpl; [reflexivity|]. rewrite IH. reflexivity. Qed.
+
+Lemma imap_imap {A B C} (f : nat -> B -> C) (h : nat -> A -> B) l : forall i,
+  imap f i (imap h i l) = imap (fun j a => f j (h j a)) i l.
+Proof. induction l as [|a l IH]; intro i; simpl; [reflexivity|]. rewrite IH. reflexivity. Qed.
+
+Lemma imap_ext_in {A B} (f f' : nat -> A -> B) l : forall i,
+  (forall j a, i <= j < i + length l -> f j a = f' j a) -> imap f i l = imap f' i l.
+Proof.
+  induction l as [|a l IH]; intros i H; simpl; [reflexivity|]. f_equal.
+  - apply H. simpl. lia.
+  - apply IH. intros j b Hj. apply H. simpl. lia.
+Qed.
+
+Lemma imap_snd {A B} (h : A -> B) l : forall i, imap (fun _ a => h a) i l = map h l.
+Proof. induction l as [|a l IH]; intro i; simpl; [reflexivity|]. rewrite IH. reflexivity. Qed.
+
+Lemma imap_idx {A B} (h : nat -> B) (l : list A) : forall i, imap (fun j _ => h j) i l = map h (seq i (length l)).
+Proof. induction l as [|a l IH]; intro i; simpl; [reflexivity|]. rewrite IH. reflexivity. Qed.
+
+Lemma pblk_store p B : map pblk (store_gr p B) = map pblk B.
+Proof. unfold store_gr. rewrite imap_map. apply (imap_snd pblk). Qed.
+
+Lemma wg_store p B : map b_wg (store_gr p B) = map (C12_Regrade.tab_g p) (seq 0 (length B)).
+Proof. unfold store_gr. rewrite imap_map. apply (imap_idx (C12_Regrade.tab_g p)). Qed.
+
+Lemma ax_store p B :
+  map b_ax (store_gr p B) = map (C12_Regrade.tab_a (map pblk B) p) (seq 0 (length B)).
+Proof. unfold store_gr. rewrite imap_map. apply (imap_idx (C12_Regrade.tab_a (map pblk B) p)). Qed.
+
+Lemma nth_map_seq {A} (f : nat -> A) n b d : b < n -> nth b (map f (seq 0 n)) d = f b.
+Proof.
+  intro H. rewrite (nth_indep _ d (f 0)) by (rewrite map_length, seq_length; exact H).
+  rewrite map_nth, seq_nth by exact H. reflexivity.
+Qed.
+
+Lemma vw_bounds bs w : PropagateInv.vw bs w <->
+  fst (fst w) < Propagate.nblocks bs /\ snd (fst w) < 3 /\ snd w < 4.
+Proof.
+  unfold PropagateInv.vw. rewrite PropagateBasics.in_all_wires, PropagateBasics.in_all_axes.
+  destruct w as [[b a] k]. simpl. tauto.
+Qed.
+
+(** reading the finite form back gives the gradings of every wire of the mesh *)
+Lemma untab_tab_g bs p A :
+  C12_Regrade.eqin bs (C12_Regrade.untab bs (map (C12_Regrade.tab_g p) (seq 0 (Propagate.nblocks bs))) A) p.
+Proof.
+  intros w Vw. apply vw_bounds in Vw. destruct w as [[b a] k]. simpl in Vw. destruct Vw as (Hb & Ha & Hk).
+  simpl. apply Nat.ltb_lt in Ha as Ha'. apply Nat.ltb_lt in Hk as Hk'. rewrite Ha', Hk'. simpl.
+  rewrite nth_map_seq by exact Hb.
+  destruct a as [|[|[|a]]]; [| | |lia]; destruct k as [|[|[|[|k]]]]; try lia; reflexivity.
+Qed.
+
+Lemma tab_g_eqin bs s t b : C12_Regrade.eqin bs s t -> b < Propagate.nblocks bs ->
+  C12_Regrade.tab_g s b = C12_Regrade.tab_g t b.
+Proof.
+  intros E Hb. unfold C12_Regrade.tab_g. apply map_ext_in. intros w Hw. apply E.
+  unfold C12_Regrade.block_wires in Hw. apply in_flat_map in Hw. destruct Hw as [x [Hx Hw]].
+  apply (PropagateInv.vw_of_axis bs x w); [|exact Hw].
+  apply PropagateBasics.in_axes_of_block in Hx. apply PropagateBasics.in_all_axes. lia.
+Qed.
+
+Lemma tab_a_untab bs p G t b :
+  Propagate.ach t = Propagate.ach (C12_Regrade.untab bs G (map (C12_Regrade.tab_a bs p) (seq 0 (Propagate.nblocks bs)))) ->
+  b < Propagate.nblocks bs -> C12_Regrade.tab_a bs t b = C12_Regrade.tab_a bs p b.
+Proof.
+  intros E Hb. unfold C12_Regrade.tab_a. apply map_ext_in. intros x Hx.
+  destruct (Propagate.chopped bs x) eqn:C; [reflexivity|]. rewrite E. simpl. rewrite C.
+  apply PropagateBasics.in_axes_of_block in Hx. destruct x as [b' a]. simpl in Hx. destruct Hx as [-> Ha]. simpl.
+  rewrite nth_map_seq by exact Hb. unfold C12_Regrade.tab_a.
+  destruct a as [|[|[|a]]]; [| | |lia]; simpl; rewrite C; reflexivity.
+Qed.
+
+Lemma write_shape orc tb s s' ev :
+  write_with orc fixed tb s = Ok s' ev ->
+  exists p, is_assembled (if is_assembled s then s else assemble tb s) = true
+    /\ s' = with_lists (if is_assembled s then s else assemble tb s)
+                       (verts (if is_assembled s then s else assemble tb s))
+                       (store_gr p (blocks (if is_assembled s then s else assemble tb s)))
+                       (patches (if is_assembled s then s else assemble tb s)).
+Proof.
+  unfold write_with. set (s1 := if is_assembled s then s else assemble tb s). intro H.
+  destruct (is_assembled s1) eqn:A; simpl in H; [|discriminate].
+  destruct (C12_Regrade.grade _ _ _ _ _) as [p| | | |]; try discriminate.
+  inversion H. exists p. auto.
+Qed.
+
+(** a second write gives the same file and leaves the same state: for every block list (chopped by
+    the user or by propagation), every order of coincident wires / neighbour axes *)
+Theorem write_with_idempotent orc tb s s2 ev :
+  write_with orc fixed tb s = Ok s2 ev -> write_with orc fixed tb s2 = Ok s2 ev.
+Proof.
+  unfold write_with. cbv zeta.
+  set (s1 := if is_assembled s then s else assemble tb s).
+  destruct (is_assembled s1) eqn:A; simpl; [|discriminate].
+  set (B := blocks s1). set (bs := map pblk B).
+  destruct (C12_Regrade.grade bs (fst (orc bs)) (snd (orc bs)) true (gstate B)) as [p| | | |] eqn:G;
+    try discriminate.
+  intro H. inversion H as [[Hs He]]. clear H.
+  set (B2 := store_gr p B).
+  set (s2' := with_lists s1 (verts s1) B2 (patches s1)).
+  assert (A2 : is_assembled s2' = true) by exact A.
+  rewrite A2. cbn [negb].
+  change (blocks s2') with B2. change (verts s2') with (verts s1). change (patches s2') with (patches s1).
+  assert (Ebs : map pblk B2 = bs) by apply pblk_store. rewrite Ebs.
+  assert (Hn : Propagate.nblocks bs = length B) by (unfold bs, Propagate.nblocks; apply map_length).
+  (* the state read back from the blocks *)
+  set (t2 := gstate B2).
+  assert (Et2 : t2 = C12_Regrade.untab bs (map (C12_Regrade.tab_g p) (seq 0 (Propagate.nblocks bs)))
+                       (map (C12_Regrade.tab_a bs p) (seq 0 (Propagate.nblocks bs)))).
+  { unfold t2, gstate. rewrite Ebs. unfold B2. rewrite wg_store, ax_store, Hn. reflexivity. }
+  assert (E2 : C12_Regrade.eqin bs t2 p) by (rewrite Et2; apply untab_tab_g).
+  pose proof (C12_Regrade.first_run_stable _ _ _ _ _ G) as Sp.
+  pose proof (C12_Regrade.stable_eqin bs t2 p Sp E2) as St2.
+  pose proof (C12_Regrade.grade_ok_oracle _ _ _ _ _ _ G) as K.
+  destruct (C12_Regrade.regrade_fix bs (fst (orc bs)) (snd (orc bs)) t2 St2 K) as (t' & G' & E' & A').
+  rewrite G'.
+  assert (Est : store_gr t' B2 = B2).
+  { transitivity (imap (fun i b => {| b_src := b_src b; b_verts := b_verts b; b_chops := b_chops b;
+                                      b_wg := C12_Regrade.tab_g t' i; b_ax := C12_Regrade.tab_a bs t' i |}) 0 B2).
+    { unfold store_gr. rewrite Ebs. reflexivity. }
+    unfold B2, store_gr. rewrite imap_imap. apply imap_ext_in.
+    intros j b Hj. simpl. simpl in Hj. fold bs.
+    assert (j < Propagate.nblocks bs) as Hb by lia.
+    f_equal.
+    - apply (tab_g_eqin bs); [|exact Hb]. intros w Vw. rewrite (E' w Vw). apply E2. exact Vw.
+    - apply (tab_a_untab bs p (map (C12_Regrade.tab_g p) (seq 0 (Propagate.nblocks bs)))); [|exact Hb].
+      rewrite A', Et2. reflexivity. }
+  rewrite Est, A2. reflexivity.
+Qed.
 
 Theorem write_idempotent tb s s2 ev :
   write fixed tb s = Ok s2 ev -> write fixed tb s2 = Ok s2 ev.
+Proof. apply write_with_idempotent. Qed.
+
+(** with the insertion-order oracle the model never reports [E_model] *)
+Theorem write_no_model_error c tb s : write c tb s <> Err E_model.
 Proof.
-  unfold write.
+  unfold write, write_with. cbv zeta.
   set (s1 := if is_assembled s then s else assemble tb s).
-  destruct (is_assembled s1) eqn:A; simpl; [|discriminate].
-  set (bs := map (grade_block fixed) (blocks s1)).
-  destruct (forallb blk_defined bs) eqn:D; simpl; [|discriminate].
-  destruct (consistent tb bs) eqn:C; simpl; [|discriminate].
-  intro H. inversion H. subst s2 ev. clear H.
-  unfold is_assembled in *. simpl. rewrite A. simpl.
-  assert (E : map (grade_block fixed) bs = bs).
-  { unfold bs. rewrite map_map. apply map_ext. intro b. apply grade_block_idem. }
-  rewrite E, D, C. simpl. rewrite A. simpl. reflexivity.
+  destruct (is_assembled s1); simpl; [|discriminate].
+  set (bs := map pblk (blocks s1)). unfold C12_Regrade.grade.
+  rewrite (PropagateFinal.insertion_oracle_ok bs). simpl.
+  match goal with |- context [Propagate.propagate ?a ?b ?c ?d ?e ?f] =>
+    pose proof (PropagateTerm.propagate_terminates a b c e) as T;
+    destruct (Propagate.propagate a b c d e f) as [q| |] end.
+  - destruct (Propagate.consistent bs q); discriminate.
+  - discriminate.
+  - exfalso. apply T. reflexivity.
 Qed.
 
 (** * backport *)
@@ -247,11 +382,8 @@ Proof.
   - inversion H. subst. simpl. rewrite clear_patches_fixed. apply modded_mods. exact M.
   - inversion H. subst. simpl. simpl in Hm. apply modded_modify_other; [|exact M].
     intro E. subst. rewrite Nat.eqb_refl in Hm. discriminate.
-  - unfold write in H.
-    destruct (is_assembled (if is_assembled s then s else assemble tb s)) eqn:A; simpl in H; [|discriminate].
-    destruct (forallb blk_defined _); simpl in H; [|discriminate].
-    destruct (consistent tb _); simpl in H; [|discriminate].
-    inversion H. subst. simpl. destruct (is_assembled s); [exact M|apply assemble_modded; exact M].
+  - destruct (write_shape _ _ _ _ _ H) as [p [_ Hs]]. subst s'. simpl.
+    destruct (is_assembled s); [exact M|apply assemble_modded; exact M].
 Qed.
 
 Theorem patch_props_persist tb : forall h s s' n k st,
@@ -298,11 +430,8 @@ Proof.
         rewrite orb_false_r. reflexivity.
       - inversion S. subst. destruct (assemble_user tb s) as [A [_ [B _]]]. rewrite A, B, app_nil_r. auto.
       - destruct (backport_user _ _ _ _ S) as [A B]. rewrite A, app_nil_r. auto.
-      - unfold write in S.
-        destruct (is_assembled (if is_assembled s then s else assemble tb s)); simpl in S; [|discriminate].
-        destruct (forallb blk_defined _); simpl in S; [|discriminate].
-        destruct (consistent tb _); simpl in S; [|discriminate].
-        inversion S. subst. simpl. destruct (is_assembled s); rewrite ?app_nil_r; auto.
+      - destruct (write_shape _ _ _ _ _ S) as [p [_ Hs]]. subst s1. simpl.
+        destruct (is_assembled s); rewrite ?app_nil_r; auto.
         destruct (assemble_user tb s) as [A [_ [B _]]]. rewrite A, B. auto. }
     destruct Q as [Qd Qx]. split.
     + rewrite Hd, Qd, <- app_assoc. reflexivity.
